@@ -129,5 +129,13 @@ func runC18Core(c *Ctx) {
 	if n == 0 {
 		c.Unresolved("C18.G1", "no `return nil` in nextChunk")
 	}
+	// C18.G2: a clean end-of-log is reported only at a record boundary (while looking for the
+	// FIRST chunk of a record); in the middle of a record the end of data is an invalid chunk.
+	fl2 := NewFlow(c.P).Edge("at-record-boundary", BoolGuard("wantFirst", true))
+	res2 := fl2.Analyze(fn, emptyState())
+	n = c.Require("C18.G2", res2, ReturnOf("io.EOF", -1, sentinelPred("EOF")), "io.EOF is returned only while expecting the first chunk of a record", []string{"at-record-boundary"})
+	if n == 0 {
+		c.Unresolved("C18.G2", "no return of io.EOF in nextChunk")
+	}
 	runC18Tables(c)
 }
